@@ -15,19 +15,25 @@ def kDotDot : Bytes := [46, 46]
 inductive FsNode where
   | file (id : Nat)
   | dir (id : Nat) (children : List (Bytes × FsNode))
+  /-- an entry that exists but cannot be opened (a symlink loop, a socket, no permission):
+  `openat` fails with an error other than ENOENT / ENOTDIR / ENAMETOOLONG -/
+  | blocked (id : Nat)
   deriving Repr
 
 def FsNode.id : FsNode → Nat
   | .file i => i
   | .dir i _ => i
+  | .blocked i => i
 
 def FsNode.isDir : FsNode → Bool
   | .dir _ _ => true
   | .file _ => false
+  | .blocked _ => false
 
 def FsNode.lookup : FsNode → Bytes → Option FsNode
   | .dir _ cs, name => (cs.find? fun c => c.1 == name).map (·.2)
   | .file _, _ => none
+  | .blocked _, _ => none
 
 inductive PathErr where
   | nul | absolute | dotdot
@@ -42,6 +48,7 @@ def validatePath (p : Bytes) : Option PathErr :=
 
 inductive OsErr where
   | notFound | notDir | nameTooLong
+  | other     -- any other errno (ELOOP, ENXIO, EACCES, ...)
   deriving Repr, DecidableEq
 
 /-- Walk the segments. `stack` holds the ancestors of `cur` (nearest first); the walk may
@@ -58,6 +65,7 @@ def walk (stack : List FsNode) (cur : FsNode) : List Bytes → Except OsErr (Lis
     else if seg.length > 255 then .error .nameTooLong
     else match cur.lookup seg with
       | none => .error .notFound
+      | some (.blocked _) => .error .other
       | some child => walk (cur :: stack) child rest
 
 /-- `openat(base_fd, path, O_RDONLY)` where `base` has ancestors `stack`. -/
